@@ -227,8 +227,13 @@ def dropDots : List Bytes → List Bytes → List Bytes
     else dropDots cs (out ++ [c])
 
 /-- `httpx._urlparse.normalize_path` applied to the (already quoted) path -/
-def httpxPath (p : Bytes) : Bytes :=
+def normalizePath (p : Bytes) : Bytes :=
   if hasDotSegment p then intercalate [0x2F] (dropDots (splitSlash p) []) else p
+
+/-- the path of the request target: `URL.raw_path` = normalised path, `/` when that is empty -/
+def httpxPath (p : Bytes) : Bytes :=
+  let r := normalizePath p
+  if r.isEmpty then [0x2F] else r
 
 def toLowerByte (b : UInt8) : UInt8 := if isUpper b then b + 0x20 else b
 
